@@ -98,6 +98,7 @@ type fakeTCP struct {
 	script []outcome
 	probeCounters
 	userDials atomic.Int64
+	times     []atomic.Int64 // optional (real-time tests): unix nanos at which the k-th probe began
 
 	mu    sync.Mutex // guards conns only; never held while blocking
 	conns []*fakeConn
@@ -144,6 +145,9 @@ func (f *fakeTCP) DialStream(ctx context.Context, addr conn.Addr, payload []byte
 		return nil, &userDialErr{f.id}
 	}
 	o, ok := f.begin(f.script)
+	if k := f.started.Load() - 1; f.times != nil && k >= 0 && int(k) < len(f.times) {
+		f.times[k].Store(time.Now().UnixNano())
+	}
 	if !ok {
 		// beyond the plan: fail at once
 		f.finished.Add(1)
